@@ -579,9 +579,9 @@ guess_registry_for_key(const std::string& key_std)
 //  F1: ChainedBinNormalisation::post_processing dereferences the null apply_first/apply_second when the two
 //      "Bin Normalisation to apply ..." keys are absent or None (segmentation fault instead of an error)
 std::string
-excluded_signature(const std::string& reg, const std::string& name_std, const std::string& text)
+excluded_signature(const std::string& reg, const std::string& name_std, const std::string& text, bool honour_env = true)
 {
-  if (c17::no_exclude())
+  if (honour_env && c17::no_exclude())
     return "";
   //  F2: BinNormalisationFromECAT8::read_norm_data ignores the result of InterfileNormHeaderSiemens::parse and
   //      dereferences the null data_info_ptr when the norm file cannot be opened/parsed (always the case here)
@@ -621,13 +621,178 @@ excluded_signature(const std::string& reg, const std::string& name_std, const st
   return "";
 }
 
+// ---- "workable" texts ---------------------------------------------------------------------------
+// Many defaults are deliberately invalid (zero lengths, no projection matrix, no file name).  At start-up the
+// harness derives, deterministically, for every entry a text that the entry's own parser accepts, if it can:
+// the default text; else the default text with every numeric 0 replaced by 1; else, round by round, one
+// "<...> := None" parsing key given the first already workable entry of the guessed registry that makes it
+// parse.  Entries for which none works need external data and are only visited rarely.
+struct Work
+{
+  std::string text;
+  bool pure_default = false;
+};
+std::string
+fill_zeros(const std::string& t)
+{
+  std::vector<std::string> lines = c17::split_lines(t);
+  for (std::string& ln : lines)
+    {
+      const Line l = split_line(ln);
+      if (l.has_assign && l.value == "0")
+        ln = l.key + ":= 1";
+    }
+  return c17::join_lines(lines);
+}
+std::map<std::string, Work>&
+workable()
+{
+  static std::map<std::string, Work> w;
+  static bool built = false;
+  if (built)
+    return w;
+  built = true;
+  auto& R = registries();
+  auto accepts = [&](Reg& r, Entry& e, const std::string& text) {
+    if (!excluded_signature(r.name, c17::ref_standardise(e.name), text, false).empty())
+      return false;
+    std::string why;
+    try
+      {
+        return parse_text(r, e.name, text, why) != nullptr;
+      }
+    catch (...)
+      {
+        return false;
+      }
+  };
+  for (Reg& r : R)
+    for (Entry& e : r.entries)
+      {
+        std::string why;
+        const std::string t0 = default_text(r, e, why);
+        if (t0.empty())
+          continue;
+        const std::string id = r.name + "/" + e.name;
+        if (accepts(r, e, t0))
+          w[id] = Work{ t0, true };
+        else if (accepts(r, e, fill_zeros(t0)))
+          w[id] = Work{ fill_zeros(t0), false };
+      }
+  for (int round = 0; round < 3; ++round)
+    for (Reg& r : R)
+      for (Entry& e : r.entries)
+        {
+          const std::string id = r.name + "/" + e.name;
+          if (w.count(id))
+            continue;
+          std::string why;
+          const std::string t0 = default_text(r, e, why);
+          if (t0.empty())
+            continue;
+          bool done = false;
+          for (const std::string& base : { t0, fill_zeros(t0) })
+            {
+              std::vector<std::string> lines = c17::split_lines(base);
+              for (std::size_t i = 0; i < lines.size() && !done; ++i)
+                {
+                  const Line l = split_line(lines[i]);
+                  if (!l.has_assign || c17::ref_standardise(l.value) != "none")
+                    continue;
+                  const int ri = guess_registry_for_key(c17::ref_standardise(l.key));
+                  if (ri < 0)
+                    continue;
+                  Reg& nr = R[std::size_t(ri)];
+                  for (Entry& ne : nr.entries)
+                    {
+                      auto it = w.find(nr.name + "/" + ne.name);
+                      if (it == w.end())
+                        continue;
+                      std::vector<std::string> cand = lines;
+                      std::vector<std::string> block = c17::split_lines(it->second.text);
+                      cand[i] = l.key + ":= " + ne.name;
+                      cand.insert(cand.begin() + std::ptrdiff_t(i) + 1, block.begin(), block.end());
+                      const std::string t = c17::join_lines(cand);
+                      if (accepts(r, e, t))
+                        {
+                          w[id] = Work{ t, false };
+                          done = true;
+                          break;
+                        }
+                    }
+                }
+              if (done)
+                break;
+              // all "None" keys at once, each with the first workable entry of its guessed registry
+              {
+                std::vector<std::string> cand;
+                bool any = false;
+                for (const std::string& ln : lines)
+                  {
+                    const Line l = split_line(ln);
+                    const int ri = (l.has_assign && c17::ref_standardise(l.value) == "none") ? guess_registry_for_key(c17::ref_standardise(l.key)) : -1;
+                    bool put = false;
+                    if (ri >= 0)
+                      for (Entry& ne : R[std::size_t(ri)].entries)
+                        {
+                          auto it = w.find(R[std::size_t(ri)].name + "/" + ne.name);
+                          if (it == w.end() || !it->second.pure_default)
+                            continue;
+                          cand.push_back(l.key + ":= " + ne.name);
+                          for (const std::string& b : c17::split_lines(it->second.text))
+                            cand.push_back(b);
+                          put = any = true;
+                          break;
+                        }
+                    if (!put)
+                      cand.push_back(ln);
+                  }
+                const std::string t = c17::join_lines(cand);
+                if (any && accepts(r, e, t))
+                  {
+                    w[id] = Work{ t, false };
+                    break;
+                  }
+              }
+            }
+        }
+  return w;
+}
+//! (registry index, entry index) of all workable entries, in table order
+const std::vector<std::pair<int, int>>&
+workable_list()
+{
+  static std::vector<std::pair<int, int>> v;
+  if (v.empty())
+    {
+      auto& R = registries();
+      auto& w = workable();
+      for (std::size_t ri = 0; ri < R.size(); ++ri)
+        for (std::size_t ei = 0; ei < R[ri].entries.size(); ++ei)
+          if (w.count(R[ri].name + "/" + R[ri].entries[ei].name))
+            v.push_back({ int(ri), int(ei) });
+    }
+  return v;
+}
+
 json
 gen(Src& s, int size)
 {
   auto& R = registries();
   json c;
-  c["reg"] = int(s.range(0, long(R.size()) - 1));
-  c["ent"] = int(s.range(0, 63));
+  const auto& wl = workable_list();
+  if (!wl.empty() && !s.chance(1, 25))
+    {
+      const auto& pr = wl[std::size_t(s.range(0, long(wl.size()) - 1))];
+      c["reg"] = pr.first;
+      c["ent"] = pr.second;
+    }
+  else
+    { // any entry of any registry (mostly rejected: needs external data)
+      c["reg"] = int(s.range(0, long(R.size()) - 1));
+      c["ent"] = int(s.range(0, 63));
+    }
+  c["base"] = s.chance(1, 8) ? "default" : "workable";
   json edits = json::array();
   const int n = int(s.small(1, 1 + size / 25));
   for (int i = 0; i < n; ++i)
@@ -635,12 +800,12 @@ gen(Src& s, int size)
   c["edits"] = edits;
   // optional: give one "<something> := None" parsing key a registered type with that type's default block
   json nest = json::array();
-  const int nn = s.chance(1, 2) ? int(s.range(1, 3)) : 0;
+  const int nn = s.chance(1, 2) ? int(s.range(1, 2)) : 0;
   for (int i = 0; i < nn; ++i)
     nest.push_back({ int(s.range(0, 31)), int(s.range(0, 63)) });
   c["nest"] = nest;
   // "fill": every numeric 0 becomes 1 first (many defaults are deliberately invalid: zero lengths, radii, ...)
-  c["fill"] = s.chance(1, 3);
+  c["fill"] = s.chance(1, 8);
   c["noise"] = s.chance(1, 2) ? long(s.range(1, 1 << 30)) : 0L;
   return c;
 }
@@ -672,8 +837,13 @@ check(const json& c)
     }
 
   // ---- generated text G
-  std::vector<std::string> lines = c17::split_lines(t0);
-  int changed_lines = 0;
+  const auto& W = workable();
+  const auto wit = W.find(id);
+  const bool from_default = c.value("base", std::string("workable")) == "default" || wit == W.end() || wit->second.pure_default;
+  std::vector<std::string> lines = c17::split_lines(from_default ? t0 : wit->second.text);
+  int changed_lines = from_default ? 0 : 1;
+  if (!from_default)
+    stats().cls("base text: derived workable text (defaults refused)");
   // nested objects: replace "key := None" by "key := <Name>" followed by <Name>'s default block
   if (c.contains("nest"))
     for (const auto& ne_j : c["nest"])
@@ -693,11 +863,14 @@ check(const json& c)
         if (ri < 0 || R[std::size_t(ri)].entries.empty())
           continue;
         Reg& nr = R[std::size_t(ri)];
-        Entry& ne = nr.entries[std::size_t(ne_j[1].get<int>()) % nr.entries.size()];
-        std::string nwhy;
-        const std::string nt = default_text(nr, ne, nwhy);
-        if (nt.empty())
+        std::vector<std::size_t> ok; // workable entries of that registry
+        for (std::size_t k = 0; k < nr.entries.size(); ++k)
+          if (W.count(nr.name + "/" + nr.entries[k].name))
+            ok.push_back(k);
+        if (ok.empty())
           continue;
+        Entry& ne = nr.entries[ok[std::size_t(ne_j[1].get<int>()) % ok.size()]];
+        const std::string nt = W.find(nr.name + "/" + ne.name)->second.text;
         std::vector<std::string> block = c17::split_lines(nt);
         lines[i] = l.key + ":= " + ne.name;
         lines.insert(lines.begin() + std::ptrdiff_t(i) + 1, block.begin(), block.end());
@@ -801,7 +974,9 @@ check(const json& c)
           k = k.substr(0, b + 1);
           const auto a = k.find_first_not_of(" \t");
           k = k.substr(a);
-          l = noisy_key(k, g) + ":=" + (g.range(0, 1) ? " " : "\t ") + s.value + (g.range(0, 3) == 0 ? "  " : "");
+          l = noisy_key(k, g) + ":=" + (g.range(0, 1) ? " " : "\t ") + s.value
+              // (documented: a continuation backslash has to be the very last character of the line)
+              + ((g.range(0, 3) == 0 && (s.value.empty() || s.value.back() != '\\')) ? "  " : "");
         }
       const std::string GN = c17::join_lines(nl);
       auto on = parse_text(r, name, GN, why);
@@ -850,6 +1025,7 @@ enumerate(uint64_t idx, int, json& c)
               c["edits"].push_back({ int(k * 7 + ri), 0, int(k) });
             c["nest"] = json::array();
             c["fill"] = false;
+            c["base"] = pass == 1 ? "workable" : "default";
             c["noise"] = pass == 1 ? long(1000 + k) : 0L;
             return true;
           }
